@@ -39,7 +39,7 @@ VARIANTS = [
            "        gate_block = macro.body\n        sexpr = [\n            \"macro\",\n            macro.name,\n            *macro.parameters,")],
          ("C05.5", "visit_Macro"), P),
     fire("c05-gate-args-not-visited",
-         [(FL, "            *[self.visit(param) for param in gate.parameters.values()],", "            *gate.parameters.values(),")],
+         [(FL, "        arguments = [self.visit(param) for param in gate.parameters.values()]", "        arguments = list(gate.parameters.values())")],
          ("C05.1", "GateStatement.parameters"), P),
     silent("c05-get-idiom",
            [(FL, "        if const.name in self.override_dict:\n            value = self.override_dict[const.name]\n            if isinstance(value, float) and not math.isfinite(value):\n                # Infinity and NaN cannot be written in Jaqal\n                raise JaqalError(f\"Cannot override {const.name} with {value}\")\n            # Like a declared value, 4.0 stands for the integer 4\n            return circuitbuilder.as_integer(value)\n        if isinstance(const.value, (int, float)):\n            return const.value\n        elif isinstance(const.value, Constant):\n            # A constant defined by another constant (only the builder can\n            # make one) has that constant's value, overrides included.\n            return self.resolve_constant(const.value)\n        else:\n            raise JaqalError(f\"Constant {const.name} has non-numeric value\")",
